@@ -24,7 +24,7 @@ PredSet(name) ==
       [] name = "p3s" -> {P(<<1, 0, 0>>, 0), P(<<0, 1, 1>>, 1), P(<<1, -1, 0>>, 0)}          \* three input coordinates
       [] name = "pp2m" -> {Aff(<<<<1, 0>>, <<0, 1>>>>, <<0, 1>>), P(<<1, 0>>, 1)}     \* a two-row decision and a one-row context that separates its labels 1 and 2
       [] name = "pp2n" -> {Aff(<<<<1, 0>>, <<0, 1>>>>, <<0, 1>>), P(<<1, 0>>, 1), P(<<1, 0>>, -1), P(<<0, 1>>, 2)}
-      [] name = "pp2" -> {Aff(<<<<1, 0>>, <<0, 1>>>>, <<0, 0>>), Aff(<<<<1, 1>>, <<1, -1>>>>, <<1, 0>>), P(<<1, 0>>, 1)}
+      [] name = "pp2" -> {Aff(<<<<1, 0>>, <<0, 1>>>>, <<0, 0>>), Aff(<<<<1, 1>>, <<1, -1>>>>, <<1, 0>>), P(<<1, 0>>, 1), P(<<0, 0>>, 1), P(<<0, 0>>, -1)}   \* the last two: constant predicates
 TermSet(name) ==
     CASE name = "t22a" -> {Aff(<<<<1, 0>>, <<0, 1>>>>, <<0, 0>>), Aff(<<<<0, 1>>, <<1, 0>>>>, <<1, -2>>)}
       [] name = "t22b" -> {Aff(<<<<1, 0>>, <<0, 1>>>>, <<0, 0>>), Aff(<<<<0, 1>>, <<1, 0>>>>, <<1, -2>>), Aff(<<<<2, 0>>, <<0, -1>>>>, <<0, -1>>)}
@@ -34,6 +34,7 @@ TermSet(name) ==
       [] name = "t23s" -> {Aff(<<<<1, 0, 1>>, <<0, 2, -1>>>>, <<0, 1>>), Aff(<<<<0, 1, 0>>, <<1, 0, 0>>>>, <<2, 0>>)}     \* R^3 -> R^2
       [] name = "t22x" -> {Aff(<<<<1, 0>>, <<0, 1>>>>, <<0, 0>>), Aff(<<<<0, 1>>, <<1, 0>>>>, <<0, 0>>), Aff(<<<<0, 0>>, <<0, 0>>>>, <<1, 0>>), Aff(<<<<0, 0>>, <<0, 0>>>>, <<0, 1>>)}   \* pairs whose coefficient differences cancel in sum
       [] name = "t22r" -> {Aff(<<<<1, 0>>, <<1, 0>>>>, <<0, 0>>), Aff(<<<<1, 0>>, <<2, 0>>>>, <<-1, -2>>)}      \* components that coincide / are proportional
+      [] name = "t22l" -> {Aff(<<<<1, 0>>, <<1, 1>>>>, <<0, 1>>), Aff(<<<<2, 0>>, <<0, 3>>>>, <<1, 0>>), Aff(<<<<1, 2>>, <<0, 1>>>>, <<0, 0>>)}    \* lower triangular, diagonal, upper triangular
       [] name = "t22s" -> {Aff(<<<<0, 1>>, <<1, 0>>>>, <<1, 0>>)}
       [] name = "tp2one" -> {Aff(<<<<1, 1>>>>, <<1>>), Aff(<<<<0, 1>>>>, <<0>>)}     \* the first one coincides with the predicate of p2one
       [] name = "tp2s" -> PredSet("p2s") \cup {Aff(<<<<0, 1>>>>, <<0>>)}          \* terminals R^2 -> R^1 that coincide with predicates of p2s
